@@ -175,6 +175,28 @@ let rec zparse_val st : value =
 let zty_of_string s = let st = { zs = s; zp = 0 } in let t = zparse_ty st in if st.zp <> String.length s then failwith "parse: trailing"; t
 let zval_of_string s = let st = { zs = s; zp = 0 } in let v = zparse_val st in if st.zp <> String.length s then failwith "parse: trailing"; v
 
+
+(* ---- values of WriteProgM (C13): s<hex> | b<hex> | j<jval>,
+   jval ::= T<hex> | S<hex> | Q<hex> | B<hex> | A(j,...) | O(<hexname>:j,...) | F *)
+let rec wparse_j st : jval =
+  match znext st with
+  | 'T' -> JText (zhexrun st)
+  | 'S' -> JStr (zhexrun st)
+  | 'Q' -> JTime (zhexrun st)
+  | 'B' -> JBytes (zhexrun st)
+  | 'A' -> JSeq (zparse_list st wparse_j)
+  | 'O' -> JObj (zparse_list st (fun st -> let name = zhexrun st in zexpect st ':'; let v = wparse_j st in (name, v)))
+  | 'F' -> JFail
+  | c -> failwith (Printf.sprintf "parse: jval %c" c)
+let wsval_of_string (s : string) : sval =
+  let st = { zs = s; zp = 0 } in
+  let v = (match znext st with
+    | 's' -> SvStr (zhexrun st)
+    | 'b' -> SvBytes (zhexrun st)
+    | 'j' -> SvJ (wparse_j st)
+    | c -> failwith (Printf.sprintf "parse: sval %c" c)) in
+  if st.zp <> String.length s then failwith "parse: trailing"; v
+
 let handle (f : string list) : string =
   match f with
   | ["rend"; fail_at; ops] ->
@@ -216,6 +238,17 @@ let handle (f : string list) : string =
   | ["show"; ctx; url; conv; ty; v] ->
     (match int_of_n (show_class (conv = "1") (zn_of_dec ctx) (url = "1") (zty_of_string ty) (zval_of_string v)) with
      | 0 -> "ok" | 1 -> "cannotshow" | 2 -> "panic" | 3 -> "stuck" | _ -> "illtyped")
+  | ["wp"; _; fail_at; ctx; v] ->
+    let w = writer_of (int_of_string fail_at) in
+    let c = zn_of_dec ctx and x = wsval_of_string v in
+    (match show_prog c x, show_view c x with
+     | Some p, Some view ->
+       let (ws, r) = p w w0 in
+       (* the program and the early-exit run of its calls agree (theorem show_prog_view): evaluated here too *)
+       let (ws2, r2) = run_shown view w w0 in
+       if ws.w_calls <> ws2.w_calls || ws.w_out <> ws2.w_out || r <> r2 then "program-and-view-differ"
+       else "calls=" ^ string_of_int (int_of_n ws.w_calls) ^ " out=" ^ chunks_s ws.w_out ^ " res=" ^ res_s r
+     | _, _ -> "unmodelled")
   | ["pathEscape"; q; h] -> script_s (pathEscape (b01 q) (bytes_of_hex h))
   | ["queryEscape"; h] -> script_s (queryEscape (bytes_of_hex h))
   | ["pe_q"; h] -> "ok:" ^ hex_of_bytes (path_escape_quoted_bytes (bytes_of_hex h))
